@@ -282,8 +282,8 @@ def zr(x):
 
 
 def mk(e):
-    """wrap an Int term, folding constants to python ints"""
-    e = z3.simplify(e)
+    """wrap an Int term (normalised as a sum of monomials), folding constants to python ints"""
+    e = z3.simplify(e, som=True)
     if z3.is_int_value(e):
         return e.as_long()
     return SInt(e)
